@@ -380,6 +380,7 @@ class io_epoll_context::schedule_at_sender {
       this->context_.schedule_at_impl(this);
 
       if constexpr (is_stop_ever_possible) {
+        UNIFEX_VERIF_YIELD("timer.ep.start_cb");
         stopCallback_.construct(
             get_stop_token(receiver_), cancel_callback{*this});
       }
@@ -418,10 +419,12 @@ class io_epoll_context::schedule_at_sender {
 
     void request_stop_remote() noexcept {
       UNIFEX_VERIF_YIELD("io.ep.t.stop_fa");
+      UNIFEX_VERIF_YIELD("timer.ep.stop_fa");
       auto oldState = this->state_.fetch_add(
           schedule_at_operation::cancel_pending_flag,
           std::memory_order_acq_rel);
       if ((oldState & schedule_at_operation::timer_elapsed_flag) == 0) {
+        UNIFEX_VERIF_YIELD("timer.ep.stop_won");
         // Timer had not yet elapsed.
         // We are responsible for scheduling the completion of this timer
         // operation.
